@@ -134,6 +134,8 @@ impl<T> ReadOptimizedLock<T> {
     pub fn read(&self) -> MutexReader<'_, T> {
         loop {
             let guard = self.token.load();
+            #[cfg(feature = "verif-hooks")]
+            crate::verif::yield_point(crate::verif::site::ROLOCK);
             match guard.as_ref() {
                 ReadToken::ReadOk(..) => {
                     // This fence ensures that we see the outcome of any
@@ -164,12 +166,16 @@ impl<T> ReadOptimizedLock<T> {
                     let unblock_waiters = Arc::new(Notification::default());
                     let write_token = ReadToken::WriteOngoing(unblock_waiters.clone());
                     let readers_done = n.0.clone();
+                    #[cfg(feature = "verif-hooks")]
+                    crate::verif::yield_point(crate::verif::site::ROLOCK);
                     let prev = self.token.compare_and_swap(&guard, Arc::new(write_token));
                     if !std::ptr::eq(prev.as_ref(), guard.as_ref()) {
                         // CAS failed, retry.
                         continue;
                     }
                     mem::drop((guard, prev));
+                    #[cfg(feature = "verif-hooks")]
+                    crate::verif::yield_point(crate::verif::site::ROLOCK);
                     // Do an RCU to trigger an underlying "wait for readers" operation.
                     self.token.rcu(|x| x.clone());
                     // NB: this wait not be necessary... it isn't clear to me if
